@@ -32,6 +32,9 @@ SIMD = 'starlark_map/src/vec_map/simd.rs'
 NUM = 'starlark/src/values/types/num/value.rs'
 FLT = 'starlark/src/values/types/float/float.rs'
 PI32 = 'starlark/src/values/types/int/pointer_i32.rs'
+INSTR = 'starlark/src/eval/bc/instr_impl.rs'
+STRT = 'starlark/src/values/types/string/str_type.rs'
+SMAP = 'starlark_map/src/small_map.rs'
 
 # (unit, file, old, new, expected obligation substring)
 MUTANTS = [
@@ -80,6 +83,23 @@ MUTANTS = [
     ('numhash', BIG, '        Ok(NumRef::Int(StarlarkIntRef::Big(self)).get_hash())', '        Ok(StarlarkHashValue::hash_64(NumRef::Int(StarlarkIntRef::Big(self)).get_hash_64() >> 1))', 'C09.hash.big_int_get_hash'),
     ('numhash', PI32, '    fn get_hash(&self, _private: Private) -> crate::Result<StarlarkHashValue> {\n        Ok(NumRef::Int(StarlarkIntRef::Small(self.get())).get_hash())\n    }\n', '', 'C09.hash.small_int_get_hash'),
     ('numhash', FLT, 'hasher.write_u64(NumRef::from(self.0).get_hash_64());', 'hasher.write_u64(NumRef::from(self.0).get_hash_64() ^ 1);', 'C09.hash.float_write_hash'),
+    ('int', PI32, 'Some(other) => Ok(heap.alloc(NumRef::Int(StarlarkIntRef::Small(self.get())) - other)),', 'Some(other) => Ok(heap.alloc(other - NumRef::Int(StarlarkIntRef::Small(self.get())))),', 'C10.value.small.sub'),
+    ('int', PI32, 'Some(StarlarkIntRef::Small(i)) => Ok(Value::new_int(self.get() | i)),', 'Some(StarlarkIntRef::Small(i)) => Ok(Value::new_int(self.get() ^ i)),', 'C10.value.small.bit_or'),
+    ('int', BIG, 'Some(other) => Ok(heap.alloc(StarlarkIntRef::Big(self).right_shift(other)?)),', 'Some(other) => Ok(heap.alloc(StarlarkIntRef::Big(self).left_shift(other)?)),', 'C10.value.big.right_shift'),
+    ('int', NUM, '            return Num::Int(a - b);', '            return Num::Int(b - a);', 'C10.num.sub'),
+    ('numcmp', INT, 'let i = InlineInt::try_from(f as i32).unwrap_or(InlineInt::ZERO);\n        if i.to_f64() == f {\n            Ok(StarlarkInt::Small(i))', 'let i = f as i64;\n        if i as f64 == f {\n            Ok(StarlarkInt::from(i))', 'C10.conv.from_f64_exact'),
+    ('calls', INSTR, '            // A method call is a call: count the tick like `call_method_common` does.\n            eval.report_forward_progress()?;\n', '', 'C15.calls.known_method_call_ticks'),
+    ('calls', INSTR, '    ) -> crate::Result<()> {\n        eval.report_forward_progress()?;\n        let arguments = args.pop_from_stack(frame);\n        let r = eval.with_call_stack(', '    ) -> crate::Result<()> {\n        let arguments = args.pop_from_stack(frame);\n        let r = eval.with_call_stack(', 'C15.calls.frozen_def_call_ticks'),
+    ('calls', INSTR, '        if let Err(e) = eval.report_forward_progress() {\n            return InstrControl::Err(e);\n        }\n', '', 'C15.calls.loop_backedge_ticks'),
+    ('strindex', STRT, 'let ind = CharIndex(i.unsigned_abs() as usize);', 'let ind = CharIndex((-i) as usize);', 'at'),
+    ('strindex', STRT, 'Ok(heap.alloc(self.as_bytes()[(len_chars - ind).0] as char))', 'Ok(heap.alloc(self.as_bytes()[len_chars.0] as char))', 'at'),
+    ('smallmap', SMAP, '            // but `clear` is rare operation anyway.\n            index.clear();', '            // but `clear` is rare operation anyway.\n            let _ = index;', 'C11.smallmap.clear'),
+    ('smallmap', SMAP, '        if n <= NO_INDEX_THRESHOLD {\n            SmallMap {', '        if n <= NO_INDEX_THRESHOLD + 1 {\n            SmallMap {', 'C11.smallmap.with_capacity'),
+    ('smallmap', SMAP, '        if self.entries.len() <= NO_INDEX_THRESHOLD {\n            self.index = None;', '        if self.entries.len() <= NO_INDEX_THRESHOLD + 1 {\n            self.index = None;', 'C11.smallmap.maybe_drop_index'),
+    ('prec', PRD, 'let e = self.parse_expr(5)?;', 'let e = self.parse_expr(6)?;', 'parse_expr'),
+    ('prec', PRD, '                let (_, left_bp, right_bp) = (BinOp::NotIn, 5u8, 6u8);', '                let (_, left_bp, right_bp) = (BinOp::NotIn, 5u8, 5u8);', 'continue_infix'),
+    ('prec', PRD, '                self.consume(&Token::In);\n                let rhs = self.parse_expr(right_bp)?;\n                let r = rhs.span.end();', '                self.consume(&Token::In);\n                let rhs = self.parse_expr(right_bp)?;\n                let r = lhs.span.end();', 'parse_expr'),
+    ('limits', CCS, 'Some(self.stack[..self.count].last().as_ref()?.to_frame())', 'Some(self.stack.last().as_ref()?.to_frame())', 'C07.stack.top_frame'),
     ('numcmp', NUM, '        if let (NumRef::Int(a), NumRef::Int(b)) = (self, other) {\n            a.cmp(b)', '        if let (NumRef::Int(a), NumRef::Int(b)) = (self, other) {\n            b.cmp(a)', 'C09.cmp.num_cmp.int_int'),
 ]
 
